@@ -72,10 +72,12 @@ def run_impl(source, syntax, ns_spec, world_kw=None, call='kw',
             # called, the same compiled template is rendered once more, from
             # the top, in a namespace of its own (a recursive template)
             busy = []
+            budget = [reenter[2] if len(reenter) > 2 else 10 ** 9]
 
             def nested():
-                if busy:
+                if busy or budget[0] <= 0:
                     return
+                budget[0] -= 1
                 busy.append(1)
                 try:
                     w2 = World(return_exc=DTReturn)
@@ -152,8 +154,15 @@ def run_impl_twice(source, syntax, ns_spec, world_kw=None):
     """Like run_impl, but the template object has been rendered before with
     a perturbed namespace."""
     t = make_template(source, syntax)
-    run_impl(source, syntax, perturbed(ns_spec), template=t)
-    return run_impl(source, syntax, ns_spec, world_kw, template=t)
+    other = perturbed(ns_spec)
+    run_impl(source, syntax, other, template=t)
+    # ... and is rendered once more, from the top and with those other
+    # values, while the checked rendering is under way (during the first two
+    # calls of its recorders)
+    recs = [k for k, v in ns_spec.items()
+            if isinstance(v, dict) and v.get('t') == 'rec']
+    return run_impl(source, syntax, ns_spec, world_kw, template=t,
+                    reenter=(recs, other, 2))
 
 
 def run_model(ast, ns_spec, world_kw=None, level=0, guard_level=200):
